@@ -57,6 +57,7 @@ class Machine(object):
     self.oracles = list(oracles)
     self.handouts = []
     self.buffers = {}
+    self.mutations = []            # caller-side edits of a point store, in order: (key, op)
     self.shared_stores = {}
     self.inconclusive = []
     self.violation = None
@@ -748,6 +749,12 @@ class Machine(object):
       if isinstance(st, world.PointStore):
         h.store = st
         h.pre = st
+    elif h.pre is not None:
+      # ... and its own copy of an array / nested-list preprocessor: that copy is
+      # now the container "the caller" holds for this estimator
+      pnew = getattr(new, "preprocessor", None)
+      if isinstance(pnew, (np.ndarray, list)):
+        h.pre = pnew
     live["state_after"] = state_digest(h.est)
     live["after_out"] = _run_probes(h.est, probes)
 
@@ -788,9 +795,65 @@ class Machine(object):
     if isinstance(p, world.PointStore):
       h2.store = p
       h2.pre = p
+    elif isinstance(p, (np.ndarray, list)):
+      h2.pre = p          # clone() copies array-like parameters: the clone reads through its own copy
     self.handles[op["h2"]] = h2
     live["handle2"] = h2
     self.cov["clones"] += 1
+
+  # -- the caller edits its own data
+  def op_mutate_store(self, op, ev, live):
+    """The caller edits the point store of a dataset *in place* (same ndarray,
+    same nested list, same table behind the callable): the estimators that read
+    through it are only asserted again after their next fit; everybody else
+    must be unaffected."""
+    key = op["data"]
+    desc = self.plan["datasets"].get(key)
+    if desc is None or desc.get("view_of"):
+      ev["outcome"] = "skip"
+      return
+    D = self.dataset(key)
+    mutate_points(D.S, op)
+    self.mutations.append((key, dict(op)))
+    for k2, D2 in self.data.items():
+      D2.X = D2.S[D2.pidx]
+    for hh in self.handles.values():
+      if hh.pre_data is None:
+        continue
+      d2 = self.plan["datasets"].get(hh.pre_data, {})
+      same = hh.pre_data == key or (d2.get("view_of") and self.data.get(hh.pre_data) is not None and
+                                    np.shares_memory(self.data[hh.pre_data].S, D.S))
+      if not same:
+        continue
+      src = self.dataset(hh.pre_data).S
+      if isinstance(hh.pre, list):
+        for i_ in range(len(hh.pre)):
+          hh.pre[i_] = src[i_].tolist()        # rows reassigned in place: the same list object
+      elif isinstance(hh.pre, np.ndarray) and not np.shares_memory(hh.pre, src):
+        hh.pre[...] = src                      # a container of its own (after a pickle restart)
+      elif isinstance(hh.pre, world.PointStore) and not np.shares_memory(hh.pre.X, src):
+        hh.pre.X[...] = src
+      hh.defined = False
+    ev["outcome"] = "ok"
+    self.cov["store_mutated_in_place"] += 1
+
+  def pristine_dataset(self, key):
+    """The dataset as the caller has it now, rebuilt from its descriptor: a
+    fresh regeneration plus the caller's recorded in-place edits."""
+    desc = self.plan["datasets"][key]
+    if desc.get("view_of"):
+      from .core import canon
+      want = canon(desc["view_of"])
+      for k2, d2 in self.plan["datasets"].items():
+        if k2 != key and not d2.get("view_of") and canon(d2) == want:
+          return make_data(desc, live_base=self.pristine_dataset(k2))
+      return make_data(desc)
+    D = make_data(desc)
+    for k2, mop in self.mutations:
+      if k2 == key:
+        mutate_points(D.S, mop)
+    D.X = D.S[D.pidx]
+    return D
 
   # -- world ops
   def op_ambient(self, op, ev, live):
@@ -813,6 +876,14 @@ class Machine(object):
     ev["at"] = op["at"]
     ev["exc"] = op["exc"]
     self.cov["faults_armed"] += 1
+
+
+def mutate_points(S, op):
+  """In-place edit of a point store (deterministic in the op)."""
+  rs = np_stream(op.get("seed", 0), "mutate-store")
+  n, d = S.shape
+  rows = np.arange(n) if op.get("how") == "all" else np.where(rs.rand(n) < 0.5)[0]
+  S[rows] = S[rows] * rs.uniform(0.5, 2.0, size=d) + rs.randn(d) * (np.abs(S).std() + 1e-300) * 0.5
 
 
 def apply_variant_args(args, spec, via):
